@@ -21,6 +21,7 @@ import (
 	"go/ast"
 	"go/token"
 	"go/types"
+	"sort"
 	"strings"
 
 	"golang.org/x/tools/go/ssa"
@@ -97,6 +98,7 @@ func checkC09(w *World, r *Report) {
 		}
 	}
 	r.floor("truthiness routines (toBool)", nTruth, 1)
+	checkTruthinessCoverage(w, r)
 }
 
 func checkIfNode(w *World, r *Report) {
@@ -570,4 +572,84 @@ func checkZeroTests(w *World, r *Report, rule string, inScope func(fn *types.Fun
 		})
 	}
 	return n
+}
+
+// checkTruthinessCoverage (R09.7): every truthiness routine must be able to find every falsy shape
+// the property lists — false, 0 of any numeric type, "", an empty list, an empty map — also when
+// the value has a host type the fast-path type switch does not name.  Structurally: the routine
+// (or the routine it delegates to) switches on reflect Kind with arms for Bool, all Int/Uint/Float
+// kinds, String, Array, Slice and Map.
+func checkTruthinessCoverage(w *World, r *Report) {
+	required := []string{"Bool", "Int", "Int8", "Int16", "Int32", "Int64", "Uint", "Uint8", "Uint16", "Uint32", "Uint64", "Float32", "Float64", "String", "Array", "Slice", "Map"}
+	kindsOf := func(fd *ast.FuncDecl) map[string]bool {
+		out := map[string]bool{}
+		ast.Inspect(fd.Body, func(n ast.Node) bool {
+			sw, ok := n.(*ast.SwitchStmt)
+			if !ok || sw.Tag == nil {
+				return true
+			}
+			c, ok := ast.Unparen(sw.Tag).(*ast.CallExpr)
+			if !ok || !w.calleeIs(c, "reflect", "Value", "Kind") {
+				return true
+			}
+			for _, cl := range sw.Body.List {
+				for _, e := range cl.(*ast.CaseClause).List {
+					if o, ok := w.Info.Uses[identOf(e)].(*types.Const); ok && o.Pkg() != nil && o.Pkg().Path() == "reflect" {
+						name := o.Name()
+						if name == "Ptr" {
+							name = "Pointer"
+						}
+						out[name] = true
+					}
+				}
+			}
+			return true
+		})
+		return out
+	}
+	routines := map[*types.Func]*ast.FuncDecl{}
+	for f, fd := range w.decls {
+		if strings.EqualFold(f.Name(), "tobool") && fd.Body != nil {
+			routines[f] = fd
+		}
+	}
+	var fs []*types.Func
+	for f := range routines {
+		fs = append(fs, f)
+	}
+	sort.Slice(fs, func(i, j int) bool { return funcName(fs[i]) < funcName(fs[j]) })
+	reach := w.renderOnlyReachable()
+	for _, f := range fs {
+		fd := routines[f]
+		if !reach[w.ssaFunc(f)] {
+			r.ok("R09.7", funcName(f), "truthiness routine finds every falsy shape by kind", w.pos(fd), "not reachable from any render root (the extension's operator table is never consulted): its coverage is unobservable", false)
+			continue
+		}
+		kinds := kindsOf(fd)
+		via := ""
+		if len(kinds) == 0 {
+			// delegation: `return other(val)`
+			ast.Inspect(fd.Body, func(n ast.Node) bool {
+				if c, ok := n.(*ast.CallExpr); ok {
+					if g := w.callee(c); g != nil && routines[g] != nil && g != f {
+						kinds = kindsOf(routines[g])
+						via = " (delegates to " + funcName(g) + ")"
+					}
+				}
+				return true
+			})
+		}
+		var missing []string
+		for _, k := range required {
+			if !kinds[k] {
+				missing = append(missing, k)
+			}
+		}
+		construct := "truthiness routine finds every falsy shape by kind"
+		if len(missing) == 0 {
+			r.ok("R09.7", funcName(f), construct, w.pos(fd), "reflect-kind switch covers Bool, all numeric kinds, String, Array, Slice, Map"+via, true)
+		} else {
+			r.bad("R09.7", funcName(f), construct, w.pos(fd), fmt.Sprintf("the routine%s has no reflect-kind arm for %v: a host-typed empty value of that kind (e.g. []string{}, map[string]string{}, a named bool/string type) falls to the 'everything else is truthy' default, so constructs using this routine disagree with the others about what is falsy", via, missing))
+		}
+	}
 }
